@@ -421,6 +421,40 @@ def corpus(seed, ndefs, nvalues=3, tag="main", log=vlib.log, use_cache=True, ext
     return res
 
 
+def run_given(tag, defs, queries, values, log=vlib.log):
+    """like corpus(), for explicitly given definitions / queries / values (no cache)"""
+    okb, outb = vlib.coq_make(["theories/Model/GenExport.vo", "theories/Tools/Digest.vo", "theories/Proofs/Gen_decl_proofs.vo"])
+    if not okb:
+        raise vlib.HarnessError("the executable model does not build: " + outb[-2000:])
+    exe, defs, queries, values, rejected = build("corpus_" + tag, defs, queries, values, log=log)
+    q, v, _ = run_binary(exe)
+    res = dict(defs=defs, queries=queries, values=values, q=q, v=v, rejected=rejected, exe=exe)
+    envname = "corpus_env_%s" % tag
+    ok, out = coq_keep(envname, env_file(defs, extra_chars=json.dumps([x[0] for vs in values.values() for x in vs], ensure_ascii=False)))
+    if not ok:
+        raise vlib.HarnessError("environment does not compile in Coq: " + out[-3000:])
+    res["envname"] = envname
+    dig = model_digests(envname, queries)
+    suspects = []
+    for i in range(len(queries)):
+        for fi, f in enumerate(QFIELDS):
+            if f == "ident" and queries[i][0] != "named":
+                continue
+            if vlib.dg_list([canon_real(f, q[i][f])]) != dig[i][fi]:
+                suspects.append((i, fi))
+    mism = []
+    if suspects:
+        sus = suspects[:600]
+        mv = model_exact(envname, queries, sus)
+        for (qi, fi), m in zip(sus, mv):
+            r = canon_real(QFIELDS[fi], q[qi][QFIELDS[fi]])
+            if m != r:
+                mism.append(dict(query=C.rust_ty(queries[qi]), qi=qi, field=QFIELDS[fi], model=m, implementation=r))
+    res["mismatches"] = mism
+    res["suspects"] = len(suspects)
+    return res
+
+
 def corpus_done(res):
     coq_cleanup(res["envname"])
     if res.get("realname"):
